@@ -72,7 +72,7 @@ def run(ctx):
         for bb_, t_ in cm.local_calls(vs, p, exact=EX + "start") + cm.local_calls(vs, p, exact=EX + "end"):
             pls.add(_base_local(t_["args"][1]))
         pl = pls.pop() if len(pls) == 1 else None
-        vals = eb.def_exprs(pl) if pl is not None else []
+        vals = eb.def_exprs_deep(pl) if pl is not None else []
         okp = okz = False
         for v in vals:
             if v[0] == "c" and float(v[1]) == 0.0:
@@ -259,7 +259,48 @@ def run(ctx):
                 if pol == w:
                     found.setdefault(k, []).append(gd)
         okk = True
-        if len(entries) != 3 or set(found) != set(want):
+        merged = False
+        if len(entries) == 2 and set(found) == {"pulse"}:
+            # merged form of the noise part: `let delta = if i == centre { 1.0 } else { 0.0 };
+            # tap[i] += noise * (delta - h_i)` - one store whose selector variable has exactly those
+            # two definitions
+            for bb, i, s_, tgt, root, chain, val in stores(vf, eb):
+                if not (tgt[0] == "call" and tgt[1].endswith("get_mut_with_offset")):
+                    continue
+                ie = tgt[2][1]
+                dvars = [x for x in walk(val) if x[0] == "var" and isinstance(x[1], int) and vf.local_ty(x[1]) == "f64"]
+                for dv in dvars:
+                    def atomize2(e, tgt=tgt, ie=ie, dv=dv):
+                        if canon(e) == canon(tgt):
+                            return ("OLD",)
+                        if e == dv:
+                            return ("DELTA",)
+                        if e[0] == "idx" and show(e[1]) == "lpf" and canon(e[2]) == canon(ie):
+                            return ("H",)
+                        if e[0] == "arg" and e[2] in ("noise", "pulse"):
+                            return (e[2].upper(),)
+                        return None
+                    pol2 = to_poly(val, atomize2) - Poly.atom(("OLD",))
+                    if pol2 != N * (Poly.atom(("DELTA",)) - H):
+                        continue
+                    sel = {}
+                    for dbb, didx, ditem in vf.defs().get(dv[1], []):
+                        if didx == "term" or vf.is_cleanup(dbb):
+                            continue
+                        v_ = eb.at(dbb, didx).rvalue(ditem["rv"])
+                        gd_ = guard_sig(vf, dbb, eb)
+                        if v_[0] == "c":
+                            pol_ = "+" if any(x.startswith("+Eq(") and "Div(Sub(" in x for x in gd_) else ("-" if any(x.startswith("-Eq(") and "Div(Sub(" in x for x in gd_) else "?")
+                            sel[pol_] = float(v_[1])
+                    gd = guard_sig(vf, bb, eb)
+                    if sel == {"+": 1.0, "-": 0.0} and any("Ne(noise, 0.0)" in x and x.startswith("+") for x in gd):
+                        merged = True
+            gp = found["pulse"][0]
+            if not any("Ne(pulse, 0.0)" in x and x.startswith("+") for x in gp):
+                merged = False
+        if merged:
+            pass
+        elif len(entries) != 3 or set(found) != set(want):
             okk = False
         else:
             gc, go, gp = found["centre"][0], found["other"][0], found["pulse"][0]
@@ -331,11 +372,11 @@ def run(ctx):
             for (sbb, stt) in starts:
                 # matching end: dominated by this start
                 en_ = [(ebb, ett) for ebb, ett in ends if sbb in dom.get(ebb, ())]
-                a = [show(eb.at(sbb).op(x)) for x in stt["args"]]
+                a = ["<period>" if (k_ == 1 and pl is not None and _base_local(x) == pl) else show(eb.at(sbb).op(x)) for k_, x in enumerate(stt["args"])]
                 okarm = len(en_) == 1
                 if okarm:
                     ebb, ett = en_[0]
-                    ea = [show(eb.at(ebb).op(x)) for x in ett["args"]]
+                    ea = ["<period>" if (k_ == 1 and pl is not None and _base_local(x) == pl) else show(eb.at(ebb).op(x)) for k_, x in enumerate(ett["args"])]
                     # per-sample loop between start and end: either `(0..fperiod).for_each(closure)` or an
                     # inline `for _ in 0..fperiod` loop; get(lpf) exactly once per iteration, unconditionally
                     fe = [(bb, t) for bb, t in vs.calls() if t["callee"]["k"] == "fndef" and cm.callee_name(t["callee"]).endswith("Iterator::for_each") and sbb in dom.get(bb, ()) and bb in dom.get(ebb, ())]
@@ -380,7 +421,7 @@ def run(ctx):
                     seqs.append((tuple(a[1:]), tuple(ea[1:]), rngs, gets, loops_in_closure))
                 else:
                     seqs.append(None)
-            pn = (vs.local_name(pl) if pl is not None else None) or "?"
+            pn = "<period>"
             want = ((pn, "self.fperiod"), (pn,), "std::ops::Range::Range{start: 0, end: self.fperiod}", 1, ("lpf", False, True))
             norm = []
             for s in seqs:
